@@ -58,7 +58,7 @@ PROPS["C19"] = dict(
     level="proof",
     translators=[translate.gen_consts],
     runs=[dict(bin="c19")],
-    quick=dict(n=4000, shards=16),
+    quick=dict(n=5000, shards=16),
     thorough=dict(n=150000, shards=128, run_timeout=3000, coq_case_timeout=3000),
     trusted_base=[
         "model coq/C19/Model.v of LocalLoader::get in resource/src/loader/_local.rs, of std::path::Path::components / PathBuf::join on Unix and of open+read on a symlink-free file system (hand-written); the negotiated extension list is re-generated from the source",
